@@ -6,16 +6,19 @@
 From Coq Require Import List Arith Bool.
 Import ListNotations.
 
-(* kind: 1 nil message, 2 event stream gone, 3 response mailbox subscribed, 4 event stream subscribed to itself, 5 a dead subscriber on an engine with a remote;
-   outcome: 0 ok, 1 panic, 2 diverged (no rest / too many events), 3 the sender blocked *)
+(* kind: 1 nil message, 2 event stream gone, 3 response mailbox subscribed, 4 event stream subscribed to itself, 5 a dead subscriber on an engine with a remote,
+   6 twelve rounds of k actors stopped at the same moment, then one message to each;
+   outcome: 0 ok, 1 panic, 2 diverged (no rest / too many events), 3 the sender blocked, 4 an actor still registered after its stop context was done *)
 Record case := { c_kind : nat; c_k : nat; c_outcome : nat; c_dead : nat; c_events : nat }.
 
 Definition oracle (c : case) : bool :=
   Nat.eqb (c_outcome c) 0 &&
   (* a nil message for an unregistered PID is one dead letter like any other *)
   (if Nat.eqb (c_kind c) 1 then Nat.eqb (c_dead c) 1 else true) &&
+  (* every message sent to an actor whose stop context was done is one dead letter *)
+  (if Nat.eqb (c_kind c) 6 then Nat.eqb (c_dead c) (12 * c_k c) else
   (* bounded: nowhere near the divergence guard of 20000 *)
-  Nat.leb (c_events c) (50 + 20 * c_k c).
+  Nat.leb (c_events c) (50 + 20 * c_k c)).
 
 Definition corr (c : case) : bool := true.
 Definition branches (c : case) : list nat := [c_kind c].
